@@ -56,6 +56,19 @@ def run_persist(outcomes, min_wait, max_wait, draws):
 
 def replay(obligation, extra):
     tried = 0
+    # "never ends by itself": a long outage (more consecutive failures than any fixed-width exponent survives)
+    for nfail in (70, 1100):
+        tried += 1
+        outcomes = ['fail'] * nfail
+        try:
+            evs, ee = run_persist(outcomes, 5, 30, [0.5] * (nfail + 5))
+            n_back = len([e for e in evs if e.name == 'back_off'])
+            err = None if n_back == nfail else '%d BackOffs for %d attempts' % (n_back, nfail)
+        except Exception as e:       # noqa
+            err = 'persist() ended with %r' % (e,)
+        if err:
+            return dict(found=True, input='%d consecutive failed attempts, min_wait=5 max_wait=30' % nfail,
+                        expected='one BackOff (within [5, 30]) after every attempt, for ever', observed=err)
     seqs = [['fail'] * 9, ['reject', 'fail', 'ready-then-drop', 'fail', 'fail', 'ready-then-close', 'drop-before-ready', 'fail'],
             ['drop-before-ready'] * 4 + ['ready-then-drop'] + ['fail'] * 8]
     for outcomes in seqs:
